@@ -44,7 +44,7 @@ NAME_POOLS = {
 class Cfg:
     def __init__(self, naming="distinct", method_form=0.3, members=None, called_lambdas=True, odd_selectors=False,
                  containers=True, ifexp=True, keywords_in_called=True, first=True, lists=True, dict_attr=True,
-                 comprehension=False, count_fn=True):
+                 comprehension=False, count_fn=True, first_on_seq=True):
         self.naming = naming
         self.method_form = method_form
         self.members = members or MEMBERS
@@ -58,6 +58,7 @@ class Cfg:
         self.dict_attr = dict_attr
         self.comprehension = comprehension
         self.count_fn = count_fn
+        self.first_on_seq = first_on_seq
 
 
 class Ctx:
@@ -195,12 +196,12 @@ def _wrappers(cx: Ctx, env, ty, depth, inner_fn):
         return f"{lit}[{pos}]"
     if c == 2 and cfg.ifexp and ty[0] in ("I", "F", "B", "O"):
         return f"({inner_fn()} if {gen(cx, env, B, depth - 1)} else {gen(cx, env, ty, depth - 1)})"
-    if c == 3 and cfg.first:
+    if c == 3 and cfg.first and (cfg.first_on_seq or ty[0] != "S"):
         s = _seq(cx, env, ty, depth - 1)
         return f"First({s})" if not cx.chance(int(cfg.method_form * 10)) else f"{_recv(s)}.First()"
     if c in (4, 7, 8) and cfg.odd_selectors:
         return _odd(cx, env, ty, depth)
-    if c in (5, 6) and cfg.first and depth >= 1:
+    if c in (5, 6) and cfg.first and depth >= 1 and (cfg.first_on_seq or ty[0] != "S"):
         # projection / member / method call applied to First(...): First(seq).attr, First(seq)[0], First(seq).m(args)
         cands = []
         for cls, members in cfg.members.items():
@@ -385,7 +386,7 @@ def _called_lambda(cx: Ctx, env, ty, depth):
     e2 = env
     for i in range(n):
         nm = cx.fresh(e2)
-        if nm in names:
+        while nm in names:
             nm = nm + "_"
         t = any_type(cx, env, 1)
         names.append(nm)
